@@ -50,7 +50,7 @@ def handlePair (_inp : List String) (obs : List String) : Outcome :=
     | _, _, _ => { stats := ["c14.rejected_registration_sequence"] }
   | _ => { verdicts := [.bad "c14pair parse"] }
 
-/-- `c14hs a=… b=…` / `= authorized=… connected=… mismatch=… disconnect=… same_hash=…` -/
+/-- `c14hs a=… b=…` / `= authorized=… connected=… mismatch=… disconnect=… stray=… same_hash=…` (`disconnect`: a request naming the client; `stray`: requests naming anything else) -/
 def handleHs (_inp : List String) (obs : List String) : Outcome :=
   match obs with
   | ["rejected"] => { stats := ["c14.rejected_registration_sequence"] }
@@ -59,7 +59,8 @@ def handleHs (_inp : List String) (obs : List String) : Outcome :=
     let ts := toks o
     match kvNat ts "authorized", kvNat ts "mismatch", kvNat ts "disconnect", kvNat ts "same_hash" with
     | some au, some mm, some dc, some sh =>
-      let ok := if sh = 1 then au = 1 && mm = 0 && dc = 0 else au = 0 && mm = 1 && dc = 1
+      let stray := (kvNat ts "stray").getD 0
+      let ok := (if sh = 1 then au = 1 && mm = 0 && dc = 0 else au = 0 && mm = 1 && dc = 1) && stray = 0
       let m := checkProtocol 0 (if sh = 1 then 0 else 1)
       let agree := (au = 1) = m.authorized && (mm = 1) = m.mismatchSent && (dc = 1) = m.disconnectRequested
       { verdicts := (if ok then [] else [.oracle "C14" s!"handshake outcome {o}"]) ++
